@@ -95,6 +95,16 @@ CLAIMED = {
             "Trusted: Coq kernel; model coq/Model/Vi.v on top of the GFI model; harness/worker_vi.py builds the family from a REINFORCE primitive with scripted outcomes (public reinforce()), "
             "values divided by ln 2; optimize_vi compared on deterministic quadratic objectives with tolerance 1e-4. No axioms.",
             "Coq proof (corollaries of the GFI theorems; induction over iterations) + differential correspondence (vm_compute)", "7/C17"),
+    "C20": ("HMM, fully mechanised for every number of states, every table and every observation sequence of length >= 1 (exact rationals): the forward message is the sum of the joint over "
+            "all earlier state paths, the marginal likelihood equals brute-force summation over all state sequences, the filtering distribution is normalised, compute_sequence_log_prob "
+            "is the joint of the path, and forward-filtering backward-sampling assigns every reachable path probability joint/marginal (induction over the sequence). "
+            "Linear-Gaussian (partial): only the scalar one-step update is mechanised; kalman_filter / kalman_smoother / the log marginal likelihood are tied to an exact-rational "
+            "recursion model and JUDGED case by case against dense joint-Gaussian conditioning (d_state, d_obs in 1..3, d_obs != d_state included, T <= 4); the step models "
+            "(discrete_hmm / linear_gaussian iterated) are covered by the GFI theorems only generically.",
+            "Trusted: Coq kernel; hand models coq/Model/Hmm.v and coq/Model/Kalman.v (with the small matrix library coq/Model/Mat.v: Gauss-Jordan inverse/determinant over Q); "
+            "harness/worker_ssm.py runs natively (no overlay), exponentiates float32 log outputs in float64 and records backward_sample's logits under scripted draws (jit disabled); "
+            "the Kalman log marginal likelihood is checked through rational enclosures of exp with a literal enclosure of ln(2 pi); tolerance 2e-4. No axioms.",
+            "Coq proof by induction over the observation sequence (HMM) + differential correspondence and dense-conditioning judgement (vm_compute)", "7/C20"),
     "C09": ("Theorems: accept iff log u < min(0, log_alpha) (all kernels); the MH balance identity a*min(1,b/a) = b*min(1,a/b); the weight mh uses is the MH log ratio of the "
             "regenerate-from-prior proposal (via C04); mala's log_alpha is the MH log ratio of the Langevin proposal with drift eps^2/2*grad, scale eps, one noise per coordinate; "
             "n leapfrog steps are reversible under momentum flip for ANY gradient function over ANY commutative ring; rejected moves return the input; unselected coordinates untouched. "
